@@ -189,3 +189,162 @@ class compile_order_by_absent:
     modifies = []
     native = False
     ensures = [('no-order', lambda result: len(result[0]) == 0 and result[1] is None)]
+
+
+# ---- SELECT targets (C07, C05, C02) ------------------------------------------------------------------------------------
+PTARGET = Rec('Target', attrs=dict(name=Opt(NAME), expression=Opaque('expr')))
+
+
+@spec(uninterpreted=True, sig=(['val'], 'val'))
+def text_of(expression):
+    """the name the statement gives an unnamed, non-column target: its exact source text (get_target_name is proved against this rule above)"""
+    raise NotImplementedError
+
+
+class _target_name_assumed:
+    """get_target_name seen from _compile_targets: its own contract (alias, else column name, else source text) is proved above"""
+    kind = 'assumed'
+    params = {'target': PTARGET}
+    result = Opt(NAME)
+    modifies = []
+    ensures = [('deterministic', lambda target, result: result == name_of(target))]
+
+
+@spec(uninterpreted=True, sig=(['val'], 'val'))
+def name_of(target):
+    raise NotImplementedError
+
+
+TCALLEES = dict(CALLEES)
+TCALLEES[f'{CP}:get_target_name'] = Contract(f'{CP}:get_target_name', _target_name_assumed, 'targets')
+
+
+@contract(f'{CP}:Compiler._compile_targets', 'list')
+class compile_targets:
+    props = ['C07', 'C05', 'C02']
+    params = {'self': COMPILER, 'targets': ListOf(PTARGET, maxlen=3)}
+    callees = TCALLEES
+    opaque_ctors = {'EvalTarget': ['c_expr', 'name', 'is_aggregate']}
+    method_results = {'childnodes': ListOf(Opaque('node'))}
+    modifies = ['fields:c_expr', 'fields:name', 'fields:is_aggregate']
+    native = False
+    assumes = ['ATTRS_PRESENT', 'METHODS_PRESENT', 'isinstance(targets, Asterisk) is false for a list (the wildcard form is the other variant)']
+    raises = {'CompilationError': None}
+    loops = {0: dict(fields=['c_expr', 'name', 'is_aggregate'],
+                     inv=lambda targets, c_targets, _i:
+                     len(c_targets) == _i
+                     and all(c_targets[j].c_expr == compiled_of(targets[j].expression) for j in range(_i))
+                     and all(c_targets[j].name == name_of(targets[j]) for j in range(_i))
+                     and all(c_targets[j].is_aggregate == (len(aggs_of(c_targets[j].c_expr)) > 0) for j in range(_i))
+                     and all(not (len(cols_of(c_targets[j].c_expr)) > 0 and len(aggs_of(c_targets[j].c_expr)) > 0) for j in range(_i))
+                     and all(allocated(c_targets[j]) for j in range(_i))
+                     and inputs_unchanged('c_expr', 'name', 'is_aggregate')),
+             1: dict(inv=lambda: True),
+             2: dict(inv=lambda: True)}
+    ensures = [
+        ('one-compiled-target-per-written-target-in-order', lambda targets, result: len(result) == len(targets)
+            and all(result[j].c_expr == compiled_of(targets[j].expression) for j in range(len(targets)))),
+        ('named-by-the-naming-rule', lambda targets, result: all(result[j].name == name_of(targets[j]) for j in range(len(targets)))),
+        ('aggregate-flag-is-truthful', lambda result: all(result[j].is_aggregate == (len(aggs_of(result[j].c_expr)) > 0) for j in range(len(result)))),
+        ('no-target-mixes-aggregates-and-bare-columns', lambda result:
+            all(not (len(cols_of(result[j].c_expr)) > 0 and len(aggs_of(result[j].c_expr)) > 0) for j in range(len(result)))),
+    ]
+
+
+WTABLE = Rec('table', attrs=dict(wildcard_columns=ListOf(NAME, maxlen=3)))
+WCOMPILER = Obj(f'{CP}:Compiler', fields=dict(table=WTABLE, context=Opaque('conn'), parameters=Dyn(), depth=Int(0), subquery=Bool()))
+ASTN = 'beanquery.parser.ast'
+
+
+@contract(f'{CP}:Compiler._compile_targets', 'wildcard')
+class compile_targets_wildcard:
+    props = ['C07', 'C05']
+    params = {'self': WCOMPILER, 'targets': Rec('Asterisk', attrs={}, isa='beanquery.parser.ast:Asterisk')}
+    callees = TCALLEES
+    opaque_ctors = {'EvalTarget': ['c_expr', 'name', 'is_aggregate']}
+    pure_ctors = {'Target': ASTN, 'Column': ASTN}
+    method_results = {'childnodes': ListOf(Opaque('node'))}
+    modifies = ['fields:c_expr', 'fields:name', 'fields:is_aggregate']
+    native = False
+    assumes = ['ATTRS_PRESENT', 'METHODS_PRESENT']
+    raises = {'CompilationError': None}
+    loops = {0: dict(fields=['c_expr', 'name', 'is_aggregate'],
+                     inv=lambda self, c_targets, _i:
+                     len(c_targets) == _i
+                     and all(c_targets[j].c_expr == compiled_of(Column(self.table.wildcard_columns[j])) for j in range(_i))
+                     and all(c_targets[j].name == name_of(Target(Column(self.table.wildcard_columns[j]), None)) for j in range(_i))
+                     and all(allocated(c_targets[j]) for j in range(_i))
+                     and inputs_unchanged('c_expr', 'name', 'is_aggregate')),
+             1: dict(inv=lambda: True),
+             2: dict(inv=lambda: True)}
+    ensures = [
+        ('one-target-per-wildcard-column-of-the-table-in-order', lambda self, result: len(result) == len(self.table.wildcard_columns)
+            and all(result[j].c_expr == compiled_of(Column(self.table.wildcard_columns[j])) for j in range(len(result)))),
+        ('named-as-an-unaliased-column-reference', lambda self, result:
+            all(result[j].name == name_of(Target(Column(self.table.wildcard_columns[j]), None)) for j in range(len(result)))),
+    ]
+
+
+# ---- GROUP BY / HAVING (C02, C05, C07) -----------------------------------------------------------------------------------
+GROUPBY = Rec('GroupBy', attrs=dict(columns=ListOf(Union(Int(), COLNODE, Opaque('expr')), minlen=1, maxlen=2), having=Opt(Opaque('expr'))))
+
+
+@contract(f'{CP}:Compiler._compile_group_by', 'explicit')
+class compile_group_by:
+    props = ['C02', 'C05', 'C07']
+    params = {'self': COMPILER, 'group_by': GROUPBY, 'c_targets': CTARGETS}
+    requires = lambda group_by: len(group_by.columns) >= 1      # the grammar: GROUP BY is followed by at least one key
+    callees = CALLEES
+    opaque_ctors = {'EvalTarget': ['c_expr', 'name', 'is_aggregate']}
+    hints = ['seq-pointwise']
+    timeout = 6000
+    modifies = ['fields:c_expr', 'fields:name', 'fields:is_aggregate']
+    native = False
+    assumes = ['ATTRS_PRESENT', 'compiled nodes compare by ==; list.index finds the first equal element (merge soundness is C03 EvalNode.__eq__)']
+    raises = {'CompilationError': None}
+    loops = {0: dict(fields=['c_expr', 'name', 'is_aggregate'],
+                     inv=lambda group_by, c_targets, new_targets, c_target_expressions, group_indexes, having_index, _i:
+                     len(group_indexes) == _i and having_index is None
+                     and len(new_targets) >= len(c_targets) and all(new_targets[j] == c_targets[j] for j in range(len(c_targets)))
+                     and len(c_target_expressions) == len(new_targets)
+                     and all(c_target_expressions[j] == new_targets[j].c_expr for j in range(len(new_targets)))
+                     and all(new_targets[j].name is None for j in range(len(c_targets), len(new_targets)))
+                     and all(new_targets[j].is_aggregate is False for j in range(len(c_targets), len(new_targets)))
+                     and all(allocated(new_targets[j]) for j in range(len(new_targets)))
+                     and all(isinstance(group_indexes[j], int) for j in range(_i))
+                     and all(0 <= group_indexes[j] < len(new_targets) for j in range(_i))
+                     and all(len(aggs_of(new_targets[group_indexes[j]].c_expr)) == 0 for j in range(_i))
+                     and inputs_unchanged('c_expr', 'name', 'is_aggregate'))}
+    ensures = [
+        ('one-group-key-per-clause', lambda group_by, result: len(result[1]) == len(group_by.columns)),
+        ('every-key-addresses-a-non-aggregate-target-of-the-extended-list', lambda c_targets, result:
+            all(0 <= result[1][j] < len(c_targets) + len(result[0]) for j in range(len(result[1])))),
+        ('having-iff-written-and-it-is-the-last-hidden-target', lambda group_by, c_targets, result:
+            (result[2] is None) == (group_by.having is None)
+            and (group_by.having is None or (result[2] == len(c_targets) + len(result[0]) - 1
+                                             and result[0][len(result[0]) - 1].c_expr == compiled_of(group_by.having)
+                                             and len(aggs_of(compiled_of(group_by.having))) > 0 and len(cols_of(compiled_of(group_by.having))) == 0))),
+        ('added-targets-are-hidden', lambda result: all(result[0][j].name is None for j in range(len(result[0])))),
+        ('selected-targets-untouched', lambda: inputs_unchanged('c_expr', 'name', 'is_aggregate')),
+    ]
+
+
+@contract(f'{CP}:Compiler._compile_group_by', 'implicit')
+class compile_group_by_implicit:
+    """no GROUP BY clause: the query aggregates iff some target is an aggregate; then the non-aggregate targets are the (implicit)
+    group keys, in target order; nothing is appended and there is no HAVING"""
+    props = ['C02', 'C05', 'C07']
+    params = {'self': COMPILER, 'group_by': NoneS(), 'c_targets': CTARGETS}
+    globals = {'SUPPORT_IMPLICIT_GROUPBY': Const(True)}
+    callees = CALLEES
+    modifies = []
+    native = False
+    assumes = ['ATTRS_PRESENT']
+    raises = {'CompilationError': lambda: False}
+    ensures = [
+        ('nothing-appended-no-having', lambda result: len(result[0]) == 0 and result[2] is None),
+        ('not-an-aggregate-query-iff-no-target-aggregates', lambda c_targets, result:
+            (result[1] is None) == (not any(c_target.is_aggregate for c_target in c_targets))),
+        ('implicit-keys-are-the-non-aggregate-targets-in-order', lambda c_targets, result:
+            result[1] is None or result[1] == [index for index, c_target in enumerate(c_targets) if not c_target.is_aggregate]),
+    ]
